@@ -511,6 +511,13 @@ func (fc *FnCtx) havocCall(st *State, call *ast.CallExpr, what string) []Val {
 			if _, isPtr := t.Underlying().(*types.Pointer); isPtr {
 				if v := fc.tr(st, a); v.S == SRec && v.Rec != "" {
 					fc.havocRecordDeep(st, v.Rec)
+				} else if v.S == SMap {
+					fc.havocMap(st, v) // &m
+				}
+			}
+			if _, isMap := t.Underlying().(*types.Map); isMap {
+				if v := fc.tr(st, a); v.S == SMap {
+					fc.havocMap(st, v) // maps are references
 				}
 			}
 		}
@@ -1479,6 +1486,44 @@ func appendUnique(xs []string, x string) []string {
 }
 
 // havocRecordDeep: forget everything known about a record and the records nested in it.
+// havocMap: an unmodelled callee was handed the map (or a pointer to it): membership, values
+// and length are unknown afterwards.
+func (fc *FnCtx) havocMap(st *State, m Val) {
+	if m.Rec == "" {
+		return
+	}
+	delete(st.fresh, m.Rec)
+	fc.mapArrays(st, m) // materialise the arrays so that they can be replaced
+	if et := func() types.Type { _, _, et, _ := mapSorts(m.GT); return et }(); et != nil {
+		if fields, ok := structFieldsOf(et); ok {
+			for _, f := range fields {
+				fc.mapFieldArray(st, m, f)
+			}
+		}
+	}
+	prefix := m.Rec + "."
+	for k, v := range st.env {
+		if !strings.HasPrefix(k, prefix) {
+			continue
+		}
+		switch {
+		case v.S == SOpaque && v.Raw != "":
+			n := fc.freshName("hvmap")
+			fc.decls = append(fc.decls, fmt.Sprintf("(declare-const %s %s)", n, v.Raw))
+			st.env[k] = Val{T: n, S: SOpaque, Raw: v.Raw}
+		case v.S == SInt:
+			nv := fc.freshVal(st, "maplen", SInt, nil)
+			st.assume = append(st.assume, "(>= "+nv.T+" 0)")
+			st.env[k] = nv
+		}
+	}
+	if _, ok := st.env[m.Rec+".len"]; !ok {
+		nv := fc.freshVal(st, "maplen", SInt, nil)
+		st.assume = append(st.assume, "(>= "+nv.T+" 0)")
+		st.env[m.Rec+".len"] = nv
+	}
+}
+
 func (fc *FnCtx) havocRecordDeep(st *State, rec string) {
 	delete(st.fresh, rec)
 	prefix := rec + "."
@@ -1493,6 +1538,8 @@ func (fc *FnCtx) havocRecordDeep(st *State, rec string) {
 			if fv.Rec != "" && fv.Rec != rec {
 				fc.havocRecordDeep(st, fv.Rec)
 			}
+		case SMap:
+			fc.havocMap(st, fv)
 		}
 	}
 	// fields never read so far must not default to zero any more: give the record a new,
